@@ -41,7 +41,10 @@ def init_ops(cfg):
     ops = C06.init_ops(cfg)
     # odd names, links, dirs before the first sync
     extra = [("write", "d1", "nl\nx", 10, 0), ("write", "d2", "co:lon", 1024, 0), ("write", "d1", "\udcff\udcfe", 0, 0),
-             ("symlink", "d1", "l n", "a"), ("hardlink", "d2", "hl", "b"), ("mkdir", "d2", "e d/x"), ("write", "d1", "z0", 5, 0, 0)]
+             ("symlink", "d1", "l n", "a"), ("hardlink", "d2", "hl", "b"), ("mkdir", "d2", "e d/x"), ("write", "d1", "z0", 5, 0, 0),
+             # several links and several empty directories on ONE disk (their record order must survive a reload)
+             ("symlink", "d1", "a-second-link", "z0"), ("symlink", "d1", "m-third", "nowhere"), ("mkdir", "d2", "a-first-empty"),
+             ("mkdir", "d2", "zz-last-empty/inner")]
     if cfg.tag == "sparse":
         ops = [o for o in ops if not (o[0] != "cmd" and o[1] in ("d3", "d4"))]
         extra += [("symlink", "d3", "only-a-link", "../d1/a"), ("mkdir", "d4", "only/an/empty/dir")]
